@@ -5,6 +5,8 @@ package dastard
 import (
 	"fmt"
 	"sort"
+
+	"github.com/usnistgov/dastard/packets"
 )
 
 func c19Lancero(ndev int, sym bool) (*LanceroSource, []int) {
@@ -233,4 +235,67 @@ func verifC19Default() {
 	vCheck(code.row() == r && code.col() == c && code.rows() == nr && code.cols() == nc, "rcCode round trip (16-bit fields)")
 	vObserve("n", int64(n))
 	vWitness("c19default-end")
+}
+
+// c19Packets: three time-stamped packets of one channel group (first channel, nchan).
+func c19Packets(first, nchan int) []*packets.Packet {
+	var out []*packets.Packet
+	for i := 0; i < 3; i++ {
+		p := packets.NewPacket(10, 20, uint32(100+i), first)
+		p.SetTimestamp(packets.MakeTimestamp(0, uint32(1000+1000*i), 1e8))
+		d := make([]int16, 2*nchan)
+		p.NewData(d, []int16{int16(nchan)})
+		out = append(out, p)
+	}
+	return out
+}
+
+// verifC19AbacoSample: the real AbacoSource.Sample + PrepareChannels with stub packet
+// producers delivering two channel groups of case-split layout: overlapping layouts are
+// rejected; accepted ones give distinct channel numbers and names and covering groups.
+func verifC19AbacoSample() {
+	vClockConcrete()
+	vTimersQuiet()
+	n0 := vRange("nchan0", 1, vParam("maxnchan", 3))
+	first1 := vRange("first1", 0, vParam("maxfirst", 4))
+	n1 := vRange("nchan1", 1, 2)
+	swap := vRange("order", 0, 1) == 1 // which group's packets arrive first
+	as := new(AbacoSource)
+	as.name = "Abaco"
+	as.groups = make(map[GroupIndex]*AbacoGroup)
+	as.channelsPerPixel = 1
+	pk := append(c19Packets(0, n0), c19Packets(first1, n1)...)
+	if swap {
+		pk = append(c19Packets(first1, n1), c19Packets(0, n0)...)
+	}
+	pp := &c10Producer{sample: [][]*packets.Packet{pk}}
+	as.producers = []PacketProducer{pp}
+	err := as.Sample()
+	same := first1 == 0 && n1 == n0 // the very same group seen twice is one group
+	overlap := first1 < n0 && !same
+	if overlap {
+		vCheck(err != nil, "an Abaco layout in which a channel number belongs to two groups is rejected")
+		vWitness("c19sample-rejected")
+		return
+	}
+	vCheck(err == nil, "a non-overlapping Abaco layout is accepted")
+	if err != nil {
+		return
+	}
+	vCheck(as.PrepareChannels() == nil, "PrepareChannels succeeds")
+	n := as.nchan
+	vCheck(len(as.chanNumbers) == n && len(as.chanNames) == n, "tables have one entry per stream")
+	for i := 0; i < n; i++ {
+		for j := i + 1; j < n; j++ {
+			vCheck(as.chanNumbers[i] != as.chanNumbers[j], "channel numbers are pairwise distinct")
+			vCheck(as.chanNames[i] != as.chanNames[j], "stream names are pairwise distinct")
+		}
+	}
+	covered := 0
+	for _, g := range as.groupKeysSorted {
+		covered += g.Nchan
+	}
+	vCheck(covered == n, "reported groups cover exactly the channel numbers in use")
+	vObserve("n", int64(n))
+	vWitness("c19sample-accepted")
 }
